@@ -23,6 +23,7 @@ EXPLANATION = (
     "are identified by their guard facts; the buffer kernel's three arms are identified by guard facts and the "
     "failing arm neither refetches nor moves the fetch position."
     ' Also: configuration attributes hold what the constructor was given (R6, value origins), and the start Deferred is failed only in the limit arm or the out-of-range-without-policy arm (R3).'
+    " The reply handlers of fetch and offset requests have the matching error handler *behind* them on every path to the end of the registering function (addCallbacks side by side does not count), and the offset reply handler restores delay and attempt count only after it has taken the reply apart."
 )
 SHARED = [('C12', ['R5'], 'a message larger than the fetch buffer surfaces as the too-small signal (fields are taken through the checked readers), so the buffer grows'), ('C12', ['R7'], 'the too-small arm grows the buffer and does not move the fetch position (never skipping the message)'), ('C02', ['R6'], 'what may be stored in the fetch position: the reset policy is applied as resolved by the broker')]
 ASSUMPTIONS = ["float arithmetic: x*F >= x for x >= 0 and F > 1", "reactor.callLater(delay, f) calls f once after delay"]
